@@ -63,6 +63,16 @@ def generate(rng, tier, n):
     it can have; in the thorough tier also every pair for some).  The rest: random schedules of 0-2 faults,
     optionally with the destination appearing before some event."""
     i = 0
+    if tier == "thorough":
+        # the complete binary-mode grid of C04 x a single fault at every event index
+        for g in c04.grid_cases():
+            if g["cfg"]["text_mode"]:
+                continue
+            for k in range(9 + len(g["body"]) + 1):
+                if i >= n:
+                    return
+                i += 1
+                yield dict(g, sched=[[k, "fault", ERRNOS[k % len(ERRNOS)]]], crash=None, retry=True, sweep="grid")
     while i < n:
         case = _base(rng, tier)
         hi = 9 + len(case["body"])           # open fdopen chmod body.. flush fsync close link unlink (+ clean-up)
